@@ -1,4 +1,5 @@
 import Sucds.Driver.Core
+import Sucds.Model.IndexIter
 import Std.Data.HashMap
 /-! Model driver, part 2: the object table and every request of the line protocol. Each request yields
     the model's answer (`m`) and what the specification expects of an answer (`e`). -/
@@ -278,19 +279,22 @@ def iterExp (elems : List String) (ops : List String) : Exp :=
         else go ops' as' rest
     go ops answers elems
 
-/-- model of the six index iterators: `next` = `access(pos)` then `pos += 1`; `size_hint` (after F2) -/
-def runIndexIter (len : Nat) (acc : Nat → String) (ops : List String) : String :=
-  let rec go (ops : List String) (pos : Nat) (out : List String) : List String :=
+/-- run `n`/`h` requests on the model of the index iterators (`IndexIter.next`, `IndexIter.sizeHint`); `acc`
+    gives the printed answer of `access(i)` (`none` = the model panicked) -/
+def runIndexIter (len : Nat) (acc : Nat → Option String) (ops : List String) : String :=
+  let rec go (ops : List String) (it : IndexIter.It) (out : List String) : List String :=
     match ops with
     | [] => out.reverse
     | op :: r =>
       if op == "n" then
-        if pos < len then
-          let a := acc pos
-          if a == "panic" then ("panic" :: out).reverse else go r (pos + 1) (a :: out)
-        else go r pos ("none" :: out)
-      else go r pos (showHint (len - pos) (some (len - pos)) :: out)
-  ";".intercalate (go ops 0 [])
+        if it.pos < len && (acc it.pos).isNone then ("panic" :: out).reverse
+        else
+          let (a, it') := IndexIter.next len acc it
+          go r it' ((match a with | some s => s | none => "none") :: out)
+      else
+        let (lo, hi) := IndexIter.sizeHint len it
+        go r it (showHint lo hi :: out)
+  ";".intercalate (go ops ⟨0⟩ [])
 
 /-- unary iterator: specification with a set of candidate cursors (`none` = exhausted) -/
 def kthFrom (b : Bool) (s : Array Bool) (c k : Nat) : Option Nat :=
@@ -477,26 +481,19 @@ def newObj (c : Cfg) (tbl : Tbl) (kind ctor : String) (a : List String) : Option
   | "cv", "from_int", [v, l, w] => match num? v, num? l, num? w with
     | some v, some l, some w =>
       let good := 1 ≤ w && w ≤ 64 && (w == 64 || v < 2^w)
-      (match CV.new w with
-      | none => errRes (.eq (okErr good))
-      | some cv0 =>
-        if w < 64 && v >>> w != 0 then errRes (.eq (okErr good))
-        else match cv0.extend (List.replicate l v) with
-          | .ok (cv, true) => okObj (.cv cv w (Array.replicate l v)) (.eq (okErr good))
-          | _ => panicRes (.eq (okErr good)))
+      (match CV.fromInt v l w with
+      | .ok (some cv) => okObj (.cv cv w (Array.replicate l v)) (.eq (okErr good))
+      | .ok none => errRes (.eq (okErr good))
+      | .error _ => panicRes (.eq (okErr good)))
     | _, _, _ => none
   | "cv", "default", [] => okObj (.cv CV.default 0 #[]) (.eq "ok")
   | "cv", ct, [vs] =>
     if ct == "from_slice" || ct == "build" then
       (list? vs).bind fun l =>
-        if l.isEmpty then okObj (.cv CV.default 0 #[]) (.eq "ok")
-        else
-          let w := neededBits c (specMax l)
-          match CV.new w with
-          | none => errRes (.eq "ok")
-          | some cv0 => match cv0.extend l with
-            | .ok (cv, true) => okObj (.cv cv (SpecX.bitlen (specMax l)) l.toArray) (.eq "ok")
-            | _ => panicRes (.eq "ok")
+        match CV.fromSlice c l with
+        | .ok (some cv) => okObj (.cv cv (if l.isEmpty then 0 else SpecX.bitlen (specMax l)) l.toArray) (.eq "ok")
+        | .ok none => errRes (.eq "ok")
+        | .error _ => panicRes (.eq "ok")
     else if ct == "from_slice_i64" then
       (ilist? vs).bind fun l => if l.any (· < 0) then errRes (.eq "err") else none
     else none
@@ -772,13 +769,13 @@ def mutate (c : Cfg) (o : Obj) (meth : String) (a : List String) : Option (Optio
 /-! ### iterators -/
 
 def iterate (c : Cfg) (o : Obj) (kind arg : String) (ops : List String) : Option Out :=
-  let idx (len : R Nat) (acc : Nat → String) (elems : List String) : Option Out :=
+  let idx (len : R Nat) (acc : Nat → Option String) (elems : List String) : Option Out :=
     match len with
     | .ok n => some ⟨runIndexIter n acc ops, iterExp elems ops⟩
     | .error _ => some ⟨"panic", iterExp elems ops⟩
-  let unw (r : R (Option Nat)) : String := match r with | .ok (some v) => s!"some {v}" | _ => "panic"
+  let unw (r : R (Option Nat)) : Option String := match r with | .ok (some v) => some s!"some {v}" | _ => none
   match o, kind with
-  | .bv m s, "iter" => idx (.ok m.len) (fun p => match m.getBit p with | .ok (some b) => s!"some {showB b}" | _ => "panic") (s.toList.map showB)
+  | .bv m s, "iter" => idx (.ok m.len) (fun p => match m.getBit p with | .ok (some b) => some s!"some {showB b}" | _ => none) (s.toList.map showB)
   | .cv m _ xs, "iter" => idx (.ok m.len) (fun p => unw (m.getInt p)) (xs.toList.map toString)
   | .db m xs, "iter" => idx m.len (fun p => unw (m.access c p)) (xs.toList.map toString)
   | .dopt m _ xs, "iter" => idx m.len (fun p => unw (m.access c p)) (xs.toList.map toString)
